@@ -150,6 +150,8 @@ pub struct RustcEnv {
     pub deps: PathBuf,
     /// further `--extern name=path` crates (e.g. shuttle for the C27 harness)
     pub externs: Vec<(String, PathBuf)>,
+    /// further rustc flags (e.g. overflow checks)
+    pub flags: Vec<String>,
 }
 
 pub fn rustc_env() -> Result<RustcEnv, String> {
@@ -161,7 +163,21 @@ pub fn rustc_env() -> Result<RustcEnv, String> {
         return Err(format!("rlib {} missing", rlib.display()));
     }
     let deps = rlib.parent().unwrap().to_path_buf();
-    Ok(RustcEnv { rlib, deps, externs: vec![] })
+    Ok(RustcEnv { rlib, deps, externs: vec![], flags: vec![] })
+}
+
+/// dev-profile lalrpop-util (overflow checks, debug assertions) and the same checks for the
+/// generated code
+pub fn rustc_env_checked() -> Result<RustcEnv, String> {
+    let p = crate::fw::verif_dir().join("target/lalrpop_util_debug.path");
+    let s = std::fs::read_to_string(&p).map_err(|e| format!("{}: {}", p.display(), e))?;
+    let rlib = PathBuf::from(s.trim());
+    if !rlib.exists() {
+        return Err(format!("rlib {} missing", rlib.display()));
+    }
+    let deps = rlib.parent().unwrap().join("deps");
+    let deps = if deps.exists() { deps } else { rlib.parent().unwrap().to_path_buf() };
+    Ok(RustcEnv { rlib, deps, externs: vec![], flags: vec!["-C".into(), "overflow-checks=on".into(), "-C".into(), "debug-assertions=on".into()] })
 }
 
 pub struct Built {
@@ -176,6 +192,9 @@ fn rustc_cmd(env: &RustcEnv, dir: &Path, main: &str, out: &str, metadata_only: b
     c.current_dir(dir).arg("--edition").arg("2021").arg("--crate-name").arg("implr").arg("--cap-lints").arg("allow").arg("-C").arg("debuginfo=0").arg("-C").arg("codegen-units=4").arg("--extern").arg(format!("lalrpop_util={}", env.rlib.display())).arg("-L").arg(format!("dependency={}", env.deps.display()));
     for (n, p) in &env.externs {
         c.arg("--extern").arg(format!("{}={}", n, p.display()));
+    }
+    for f in &env.flags {
+        c.arg(f);
     }
     if metadata_only {
         c.arg("--emit=metadata").arg("--crate-type").arg("lib").arg("-o").arg(out);
